@@ -228,3 +228,33 @@ PROPS["C10"] = {
         {"test": "^TestC10Codec$", "quick": {"checks": 3000}, "thorough": {"checks": 200000, "shards": 4}},
     ],
 }
+
+PROPS["C15"] = {
+    "level": "exploration",
+    "technique": "exhaustive enumeration of disk sizes over dense ranges; per size: layout algebra on the repository's own super-block accessors, fsck of the freshly formatted disk (bitmaps = non-data blocks + root, allocators = bitmaps), and for a sub-grid fill-until-NOSPC / delete-everything with exact counts",
+    "level_text": "Every size in 1500..1960 (across the smallest accepted size), 32768+-300, 65536+-200, 98304+-200 (bitmap-block boundaries) and every size cmd/go-nfsd can produce (1500+256*MB, MB=1..400) is formatted with nfs.MakeNfs on a sparse in-memory disk. A refusal (panic 'configuration makes no sense') means the size is not accepted; sizes above an accepted one must be accepted. For accepted sizes: log, block bitmap, inode bitmap, inode table and data region are disjoint, large enough and inside the disk; fsck finds exactly the non-data blocks, the root directory's block and inodes 0/1/root in use, no block number beyond the disk allocatable, allocators equal to the bitmaps, and free + root blocks = size of the data region. For a sub-grid (quick: every 4th small size, 32767, 32768, 32773, some cmd sizes; thorough: all small sizes, every 8th around 32768, boundary sizes at 65536) the disk is filled through WRITEs until the server reports no space - no free block may remain, fsck must still pass - then emptied, and all counts must return.",
+    "level_note": "Exhaustive over the stated ranges only. Larger disks (up to 98504 blocks) are checked for layout and bitmaps, not filled (400 MB each).",
+    "rule": ("unit = one disk size. Non-trivial: the size is within 2 of a bitmap-block boundary (multiple of 32768) or of the smallest accepted size, or the disk was filled completely and emptied. distinct = the size (and whether it was filled)."),
+    "assumptions": COMMON_ASSUMPTIONS,
+    "required_classes": ["sizes_accepted", "sizes_refused", "sizes_filled_completely_and_emptied"],
+    "units": [
+        {"test": "^TestC15Sizes$", "norapid": True, "quick": {"shards": 16}, "thorough": {"shards": 16, "timeout": 3600}},
+    ],
+}
+
+PROPS["C16"] = {
+    "level": "exploration",
+    "technique": "reflection-driven value generation (rapid) for every NFS/MOUNT argument and result type with round-trip, prefix-rejection and differential (go-rpcgen rfc1813, generated from the RFC's .x file) oracles; generated and mutated byte strings through both decoders; hand-derived golden byte vectors; exhaustive dispatch check over procedure numbers with a recording stub behind the repository's registration tables and the real RPC server; native fuzzing of the decoders (thorough)",
+    "level_text": "Round trip: for each of 54 wire types a value is generated by reflection (every union arm incl. out-of-range discriminants, optional present/absent, lists of 0..3 elements, opaque/string lengths 0..67 and beyond the handle limit); its encoding must be a multiple of 4 bytes, decode+encode must reproduce the bytes, the rfc1813 codec must produce identical bytes for the field-wise copied value, and every strict prefix must be rejected. Bytes: arbitrary and mutated byte strings must be accepted/rejected alike by both decoders and re-encode identically. Golden: 24 messages whose bytes are built with an independent 20-line big-endian encoder from the RFC 1813/4506 layouts must be produced exactly and decode back. Dispatch: through rfc1057.Server over net.Pipe with the repository's *_regs tables and a recording handler, each of the 22 NFS and 6 MOUNT procedure numbers must reach the method RFC 1813 assigns to it, numbers 22..39 / 6..11 and other programs/versions must be refused. Thorough adds coverage-guided fuzzing of [type | bytes] with the differential oracle.",
+    "level_note": "The repository's nfs_xdr.go is today textually the output of the same generator as rfc1813, so the differential oracle detects any edit of the repository's copy but shares generator bugs; golden vectors and the dispatch table are the generator-independent part. cmd/*/main.go itself (portmapper registration) cannot run offline; the harness registers the same tables the same way.",
+    "rule": ("unit = one generated value / byte string / golden vector / procedure number. Non-trivial: a value whose encoding succeeded and passed through all four oracles (distinct by FNV hash of type and bytes); every golden vector; every assigned procedure number. Dispatch and golden units are exhaustive over their finite tables."),
+    "assumptions": COMMON_ASSUMPTIONS,
+    "required_classes": ["golden_vectors", "procedure_numbers_checked", "type_WRITE3args", "type_READDIRPLUS3res", "type_Mountres3"],
+    "units": [
+        {"test": "^TestC16RoundTrip$", "quick": {"checks": 6000, "shards": 4}, "thorough": {"checks": 300000, "shards": 8}},
+        {"test": "^TestC16Bytes$", "quick": {"checks": 20000, "shards": 4}, "thorough": {"checks": 1000000, "shards": 8}},
+        {"test": "^TestC16Golden$", "norapid": True, "quick": {"shards": 1}},
+        {"test": "^TestC16Dispatch$", "norapid": True, "quick": {"shards": 1}},
+        {"test": "^FuzzC16Decode$", "fuzz": True, "quick": {"shards": 1}, "thorough": {"shards": 1, "fuzztime": 300, "procs": 16, "timeout": 900}},
+    ],
+}
